@@ -867,8 +867,9 @@ func runC19(ctx *Ctx, idx int) {
 		// steer the short-node table
 		parents := r.Range(50, 600)
 		m := r.Range(1, 14)
-		if scale == 1 && idx%30 == 0 {
-			// large regular sets: table sizes 8..10
+		if scale == 1 && idx%600 == 0 {
+			// large regular sets: table sizes 8..10 (ten per thorough run:
+			// rendering 10^5 nodes several times over costs minutes each)
 			switch r.Intn(3) {
 			case 0:
 				parents, m = 2400, 60
@@ -880,7 +881,7 @@ func runC19(ctx *Ctx, idx int) {
 		}
 		ks = KeySet{"repeats", genRepeats(r, parents, m, r.Range(2, 4))}
 	case idx%3 == 1:
-		ks = KeySet{"uniform", genUniform(r, 3000+scale*27000)}
+		ks = KeySet{"uniform", genUniform(r, 3000+scale*9000)}
 	default:
 		ks = genKeySet(r, scale)
 	}
